@@ -112,6 +112,10 @@ func (cc *LBClient) init() {
 // AddClient adds a new client to the balanced clients and
 // returns the new total number of clients.
 func (cc *LBClient) AddClient(c BalancingClient) int {
+	// Populate cc.cs from cc.Clients first, so a call made before the
+	// first request sees (and counts) the configured clients.
+	cc.once.Do(cc.init)
+
 	cc.mu.Lock()
 	defer cc.mu.Unlock()
 	cc.cs = append(cc.cs, &lbClient{
@@ -125,6 +129,10 @@ func (cc *LBClient) AddClient(c BalancingClient) int {
 // If rc returns true, the passed client will be removed.
 // Returns the new total number of clients.
 func (cc *LBClient) RemoveClients(rc func(BalancingClient) bool) int {
+	// Populate cc.cs from cc.Clients first; otherwise a removal issued before
+	// the first request would be lost when the lazy init runs later.
+	cc.once.Do(cc.init)
+
 	cc.mu.Lock()
 	// defer so a panic in the user-supplied rc can't leak the lock.
 	defer cc.mu.Unlock()
